@@ -13,11 +13,44 @@ from ..engines import e6_siblings as e6
 LEVEL = "other"
 
 
+def _scale_inherited(db, chk, cfg, rule="SCALE.inherited"):
+    """PolyPathD de-scales the integer rings it is given with scale_, and hands scale_ on to its children through their constructors:
+    every constructor that takes the parent node stores a value read from the parent's scale_ into its own scale_.  A node that skips
+    the store converts its own ring correctly (from the parent's value) but its children are converted with whatever scale_ held -
+    every ring from depth 2 on stays in scaled integer coordinates, so the tree no longer carries the paths of the Paths solution."""
+    from ..astq import walk, kids, canon, where
+    from ..extract import AnalysisBroken
+    n = 0
+    for f in db.funcs:
+        if f.kind != "CXXConstructorDecl" or f.cls != "PolyPathD" or f.is_pattern or f.body is None:
+            continue
+        par = [p for p in f.params if "PolyPathD *" in (p.get("type") or {}).get("qualType", "")]
+        if not par:
+            continue
+        n += 1
+        pname = par[0].get("name")
+        ok = False
+        for x in walk(f.node):
+            if x.get("kind") == "BinaryOperator" and x.get("opcode") == "=" and kids(x)[0].get("kind") == "MemberExpr" and kids(x)[0].get("name") == "scale_":
+                ok = ok or any(m.get("kind") == "MemberExpr" and m.get("name") == "scale_" and canon(m).startswith(str(pname)) for m in walk(kids(x)[1]))
+            if x.get("kind") == "CXXCtorInitializer" and (x.get("anyInit") or {}).get("name") == "scale_":
+                ok = ok or any(m.get("kind") == "MemberExpr" and m.get("name") == "scale_" and canon(m).startswith(str(pname)) for m in walk(x))
+        chk.instance(rule, {"constructor": f.sig[:70], "stores_parent_scale": ok, "cfg": cfg}, ok=ok)
+        if not ok:
+            chk.violation(rule, f.qual, f.sig[:50], "PolyPathD constructor %s takes the parent node `%s` but never stores %s->scale_ into its own scale_: the children "
+                          "added below this node are de-scaled with the wrong factor (rings at depth 2 and deeper stay in scaled integer coordinates)"
+                          % (f.sig[:60], pname, pname), f.where, cfg=cfg)
+    if n < 2:
+        raise AnalysisBroken("SCALE.inherited: fewer than 2 PolyPathD constructors taking the parent node (%s)" % cfg)
+    return n
+
+
 def run(chk):
     cfgs = ["base", "z"] if chk.tier == "quick" else ["base", "z", "hi", "noexc"]
     chk.configs = cfgs
     chk.rule("PIP.on-edge", "point-in-polygon routines (PointInPolygon, PointInOpPolygon): every cross product that decides a toggle is kept in a local that is tested for "
              "zero with IsOn returned - a point exactly on an edge is never classified by that edge's direction")
+    chk.rule("SCALE.inherited", "every PolyPathD constructor that takes the parent node stores the parent's scale_ into its own: children are de-scaled with the factor of the tree's root")
     chk.rule("PRECISION.forwarded", "every function with a precision parameter uses it for more than validation and constructs no ClipperD with the default precision: "
              "the PolyTreeD overloads compute the same rings as the PathsD overloads at every precision")
     chk.rule("SPLIT.recorded", "DoSplitOp / ProcessHorzJoins: on every tree-mode path after NewOutRec() the two halves are tied through a splits list before the "
@@ -41,6 +74,7 @@ def run(chk):
     chk.rule("PLUMB", "polytree children are created from outrec->path, which only CheckBounds builds")
     chk.rule("SIBLING.64-D", "BuildTreeD equals BuildTree64 modulo renames and de-scaling")
     for cfg in cfgs:
+        _scale_inherited(AstDB(cfg), chk, cfg)
         db = AstDB(cfg)
         e10.rule_pipeline(db, chk, cfg)
         e10.rule_precede(db, chk, cfg)
